@@ -205,18 +205,22 @@ Crash == /\ w.pc \notin {"idle", "crashed"}
 
 \* from the first system call of a write-back on -- in particular in every state
 \* a crash can freeze -- the name holds the old or the new complete content
-AtomicOnDisk == Active => /\ Exists(Conf)
-                          /\ \/ Content(Conf) = w.old
-                             \/ Content(Conf) = w.new
+\* (n: the directory entry the configuration path resolves to -- Conf itself unless the path
+\* goes through symbolic links, which only the trace specification knows about)
+AtomicAt(n) == Active => /\ Exists(n)
+                         /\ \/ Content(n) = w.old
+                            \/ Content(n) = w.new
+AtomicOnDisk == AtomicAt(Conf)
 
 \* write(2) is one action above, but it is not atomic against a crash: while it runs on the inode
 \* the name refers to, a prefix of d may be all that reached the file.  Three such cuts are judged
 \* (after the first byte, in the middle, before the last byte); to be evaluated BEFORE the write.
 Cuts(d) == {n \in {1, Len(d) \div 2, Len(d) - 1} : 0 < n /\ n < Len(d)}
-WriteTornOK(fd, p, d) ==
-  (Active /\ Exists(Conf) /\ fd \in DOMAIN fdt /\ fdt[fd].ino = dir[Conf] /\ p <= Len(Content(Conf))) =>
-     \A n \in Cuts(d) : LET c2 == Overwrite(Content(Conf), p, SubSeq(d, 1, n))
+WriteTornAt(c, fd, p, d) ==
+  (Active /\ Exists(c) /\ fd \in DOMAIN fdt /\ fdt[fd].ino = dir[c] /\ p <= Len(Content(c))) =>
+     \A n \in Cuts(d) : LET c2 == Overwrite(Content(c), p, SubSeq(d, 1, n))
                         IN c2 = w.old \/ c2 = w.new
+WriteTornOK(fd, p, d) == WriteTornAt(Conf, fd, p, d)
 
 \* a finished write-back installed the intended content
 WriteInstalls == w.pc = "done" => (Exists(Conf) /\ Content(Conf) = w.new)
